@@ -100,6 +100,11 @@ func TestVerifC31Cas(t *testing.T) {
 							rep.Fail("retry-gave-up-late", fmt.Sprintf("gave up after %v, timeout %v interval %v", t1-t0, c.timeout, c.interval), replay)
 						}
 					}
+				case c.held && (ra < 0 || ra > t0+c.timeout-time.Second):
+					// the holder's release slipped to within a second of the deadline (very slow
+					// machine): either outcome is legitimate, nothing is judged or diffed
+					rep.Count("cas:inconclusive-holder-released-too-late-on-this-machine")
+					return
 				default:
 					if class != "acquired" {
 						rep.Fail("retry-failed-although-released-before-timeout", fmt.Sprintf("holder of %v, timeout %v: %v", c.hold, c.timeout, err), replay)
